@@ -973,6 +973,9 @@ def rule_first_match(prog, rep, tier, anchor="parse._merge_inner_function", owne
                         verdict, why = "last", "the matches are reversed before one is taken"
                     elif nm in ("dict", "OrderedDict"):
                         verdict, why = "last", "a mapping built from the matches keeps the last one per name"
+                    elif nm in ("min", "max", "sorted") and prog.lookup(nm, p)[0] == "builtin":
+                        # chosen by a key (a line number, a name), not by the breadth-first order that puts the class's own methods first
+                        verdict, why = "reordered", "%s(...) chooses among the matches by %s" % (nm, next((src(k.value, 40) for k in p.keywords if k.arg == "key"), "their natural order"))
                     else:
                         break
                 elif isinstance(p, ast.comprehension) and p.iter is child:
@@ -1013,6 +1016,10 @@ def rule_first_match(prog, rep, tier, anchor="parse._merge_inner_function", owne
             inst = "%s: selection over %s" % (fi.qualname, src(w, 40))
             if verdict == "first":
                 rep.holds("FIRST-MATCH", inst, loc(prog, w), why)
+            elif verdict == "reordered":
+                rep.violation(Finding("FIRST-MATCH", fi.qualname, "not-walk-order",
+                                      "the definition merged into the class is not the first of that name in ast.walk order (%s): breadth-first order is what puts the class's own "
+                                      "method before the same-named method of a nested class - a nested class written above it wins by position in the file" % why, loc(prog, w)))
             elif verdict == "last":
                 rep.violation(Finding("FIRST-MATCH", fi.qualname, "last-match",
                                       "the definition merged into the class is the LAST one of that name in ast.walk order (%s): with a nested class that defines the same "
